@@ -449,6 +449,17 @@ fn view_action<P: HP, T: HV>(v: TrieView<'_, P, T>, action: &[&str]) -> String {
         }
         ["walk"] => format!("ok;{}", walk(Some(v), P::W + 2)),
         ["has"] => format!("ok;{},{}", fb(v.left().is_some()), fb(v.right().is_some())),
+        // the view re-borrowed through `AsView`
+        ["aspv"] => {
+            let b = v.clone().view();
+            let (xs, d) = drain(b.keys());
+            format!(
+                "ok;net={};{};{}",
+                fnet(b.prefix()),
+                fopt(b.prefix_value(), |(p, x)| fpv(p, x)),
+                list_or_diverge(xs.into_iter().map(|p| fp(p)).collect(), d)
+            )
+        }
         _ => "bad-op".into(),
     }
 }
@@ -464,6 +475,17 @@ fn viewmut_action<P: HP, T: HV>(mut v: TrieViewMut<'_, P, T>, action: &[&str]) -
             format!("ok;{}", list_or_diverge(xs.into_iter().map(|(p, x)| fpv(p, x)).collect(), d))
         }
         ["walk"] => format!("ok;{}", walk(Some((&v).view()), P::W + 2)),
+        // the immutable view lent out by a mutable one (`impl AsView for &TrieViewMut`)
+        ["aspv"] => {
+            let b = (&v).view();
+            let (xs, d) = drain(b.keys());
+            format!(
+                "ok;net={};{};{}",
+                fnet(b.prefix()),
+                fopt(b.prefix_value(), |(p, x)| fpv(p, x)),
+                list_or_diverge(xs.into_iter().map(|p| fp(p)).collect(), d)
+            )
+        }
         ["iter_mut", d] => {
             let d = parse_i(d).unwrap();
             let (xs, dv) = drain(v.iter_mut());
@@ -1383,6 +1405,53 @@ fn step<P: HP>(st: &mut St<P>, line: &str) -> String {
                 _ => "bad-op".into(),
             }
         }
+        ["par_churn", r, n, rest @ ..] => {
+            // two threads insert / remove the value at the root of their side of a split view, `n` times each
+            // (the entry counter is shared between the sides); every side ends as it started
+            let Some(steps) = parse_steps::<P>(rest) else { return "bad-op".into() };
+            let Ok(rounds) = n.parse::<u32>() else { return "bad-op".into() };
+            fn work<P: HP, T: HV>(mut v: TrieViewMut<'_, P, T>, rounds: u32) {
+                let orig = v.value().cloned();
+                for i in 0..rounds {
+                    if v.set(T::of(i as i64)).is_err() {
+                        break;
+                    }
+                    v.remove();
+                }
+                if let Some(o) = orig {
+                    let _ = v.set(o);
+                }
+            }
+            macro_rules! go {
+                ($m:expr) => {{
+                    let res = match nav_mut($m.view_mut(), &steps) {
+                        Err(e) => Err(e),
+                        Ok(v) => {
+                            let (l, r) = v.split();
+                            std::thread::scope(|s| {
+                                if let Some(l) = l {
+                                    s.spawn(move || work(l, rounds));
+                                }
+                                if let Some(r) = r {
+                                    s.spawn(move || work(r, rounds));
+                                }
+                            });
+                            Ok(())
+                        }
+                    };
+                    match res {
+                        Err(e) => e,
+                        Ok(()) => format!("ok;len={};n={}", $m.len(), $m.iter().count()),
+                    }
+                }};
+            }
+            match *r {
+                "A" => go!(&mut st.a),
+                "B" => go!(&mut st.b),
+                "S" => go!(&mut st.s),
+                _ => "bad-op".into(),
+            }
+        }
         ["setop", kind, rest @ ..] => setop(st, kind, rest),
         ["setop_split", kind, rest @ ..] => setop_split(st, kind, rest),
         ["eq", ra, rb] => {
@@ -1425,8 +1494,33 @@ fn step<P: HP>(st: &mut St<P>, line: &str) -> String {
     }
 }
 
+/// number of arena slots reachable from slot 0 (each counted once)
+fn reach(s: &prefix_trie::map::VerifSnapshot) -> usize {
+    let n = s.slots.len();
+    let mut seen = vec![false; n];
+    let mut stack = vec![0usize];
+    let mut c = 0;
+    while let Some(i) = stack.pop() {
+        if i >= n || seen[i] {
+            continue;
+        }
+        seen[i] = true;
+        c += 1;
+        if let Some(r) = s.slots[i].1 {
+            stack.push(r)
+        }
+        if let Some(l) = s.slots[i].0 {
+            stack.push(l)
+        }
+    }
+    c
+}
+
 fn run<P: HP>(input: impl BufRead, out: &mut impl Write) {
     let mut st: St<P> = St { a: PrefixMap::new(), b: PrefixMap::new(), s: PrefixSet::new() };
+    // per register: the largest number of nodes the map has needed after any operation so far (C16: the arena
+    // never holds more slots than that)
+    let mut peaks = [1usize; 3];
     for line in input.lines() {
         let line = line.unwrap();
         let t = line.trim();
@@ -1434,8 +1528,35 @@ fn run<P: HP>(input: impl BufRead, out: &mut impl Write) {
             continue;
         }
         let r = catch_unwind(AssertUnwindSafe(|| step(&mut st, t)));
+        let toks: Vec<&str> = t.split(' ').collect();
+        let ridx = |r: &str| match r {
+            "A" => Some(0),
+            "B" => Some(1),
+            "S" => Some(2),
+            _ => None,
+        };
+        if toks[0] == "copy" && toks.len() == 3 {
+            if let (Some(x), Some(y)) = (ridx(toks[1]), ridx(toks[2])) {
+                peaks[y] = peaks[x];
+            }
+        }
+        let snaps = catch_unwind(AssertUnwindSafe(|| [st.a.verif_snapshot(), st.b.verif_snapshot(), st.s.verif_snapshot()]));
+        let mut bound = String::new();
+        if let Ok(sn) = snaps {
+            for i in 0..3 {
+                peaks[i] = peaks[i].max(reach(&sn[i]));
+            }
+            if toks[0] == "snap" && toks.len() == 2 {
+                if let Some(i) = ridx(toks[1]) {
+                    bound = if sn[i].arena_len > peaks[i] { ";bound=EXCEEDED".into() } else { ";bound=ok".into() };
+                }
+            }
+        }
         match r {
-            Ok(s) => {
+            Ok(mut s) => {
+                if s.starts_with("arena=") {
+                    s.push_str(&bound);
+                }
                 writeln!(out, "{}", s).unwrap();
                 out.flush().unwrap();
             }
